@@ -1,7 +1,21 @@
 package csm
 
 func (csm *CronStateMachine) findForward() {
-	// Initial find, checking from most to least significant
+	// If no changes were applied, advance from least to most significant
+	if !csm.advanceInvalid() {
+		csm.next()
+	}
+
+	// The day depends on the month and the year. If one of them moved, the
+	// day may not exist or match any more; keep advancing until every node
+	// is valid or the years are exhausted.
+	for !csm.exhausted && csm.advanceInvalid() {
+	}
+}
+
+// advanceInvalid checks the nodes from most to least significant and moves the
+// first invalid one forward. It returns false if all nodes are valid.
+func (csm *CronStateMachine) advanceInvalid() bool {
 	nodes := []NodeID{years, months, days, hours, minutes, seconds}
 	for _, nodeID := range nodes {
 		node := csm.selectNode(nodeID)
@@ -10,12 +24,10 @@ func (csm *CronStateMachine) findForward() {
 			if ffresult == overflowed {
 				csm.overflowFrom(nodeID + 1)
 			}
-			return
+			return true
 		}
 	}
-
-	// If no changes were applied, advance from least to most significant
-	csm.next()
+	return false
 }
 
 // Reset all nodes below and including this one
@@ -33,6 +45,7 @@ func (csm *CronStateMachine) resetFrom(node NodeID) {
 func (csm *CronStateMachine) overflowFrom(node NodeID) {
 	chosenNode := csm.selectNode(node)
 	if chosenNode == nil {
+		csm.exhausted = true
 		return
 	}
 
